@@ -177,14 +177,8 @@ func runUnsat(c *Ctx) {
 		var req ssa.Value
 		fromReq := false
 		for _, e := range elems {
-			if cl, ok := e.(*ssa.Call); ok && cl.Common().IsInvoke() && cl.Common().Method.Name() == "value" {
-				if ta, ok := cl.Common().Value.(*ssa.Extract); ok {
-					if t, ok := ta.Tuple.(*ssa.TypeAssert); ok {
-						req = t.X
-					}
-				} else if t, ok := cl.Common().Value.(*ssa.TypeAssert); ok {
-					req = t.X
-				}
+			if v := c.vertexOfValue(e); v != nil {
+				req = v
 			}
 		}
 		var reqList *ssa.Call
@@ -343,13 +337,8 @@ func runUnsat(c *Ctx) {
 		why4 = fmt.Sprintf("%d append site(s)", len(aps))
 		for _, ap := range aps {
 			for _, e := range appendedValues(ap) {
-				if cl, ok := e.(*ssa.Call); ok && cl.Common().IsInvoke() && cl.Common().Method.Name() == "value" {
-					var vx ssa.Value
-					if ex, ok := cl.Common().Value.(*ssa.Extract); ok {
-						if t, ok := ex.Tuple.(*ssa.TypeAssert); ok {
-							vx = t.X
-						}
-					}
+				{
+					vx := c.vertexOfValue(e)
 					if vx != nil {
 						if r, ok := core.Root(vx).(*ssa.Extract); ok && r.Tuple == ssa.Value(ibCall) && r.Index == 0 {
 							extra := ""
@@ -597,4 +586,47 @@ func (c *Ctx) containsSuppliedConvs(ib *ssa.Function, s ssa.Value, at ssa.Instru
 		return false
 	}
 	return ok(s)
+}
+
+// vertexOfValue: e is the user-facing Value of vertex x — `x.(valueConverter).value()` directly, or through an
+// in-target helper h(x) every return of which is such a value() call on (an assertion of) its only parameter.
+func (c *Ctx) vertexOfValue(e ssa.Value) ssa.Value {
+	cl, ok := e.(*ssa.Call)
+	if !ok {
+		return nil
+	}
+	direct := func(cl *ssa.Call) ssa.Value {
+		if !cl.Common().IsInvoke() || cl.Common().Method.Name() != "value" {
+			return nil
+		}
+		switch x := cl.Common().Value.(type) {
+		case *ssa.Extract:
+			if t, ok := x.Tuple.(*ssa.TypeAssert); ok {
+				return t.X
+			}
+		case *ssa.TypeAssert:
+			return x.X
+		}
+		return nil
+	}
+	if v := direct(cl); v != nil {
+		return v
+	}
+	cal := cl.Common().StaticCallee()
+	if cal == nil || !c.P.InTarget(cal) || len(cal.Params) != 1 || len(cl.Common().Args) != 1 {
+		return nil
+	}
+	for _, r := range core.Returns(cal) {
+		if len(r.Results) != 1 {
+			return nil
+		}
+		rc, ok := r.Results[0].(*ssa.Call)
+		if !ok {
+			return nil
+		}
+		if v := direct(rc); v == nil || v != ssa.Value(cal.Params[0]) {
+			return nil
+		}
+	}
+	return cl.Common().Args[0]
 }
